@@ -634,9 +634,10 @@ def config_cases(draw, tier):
     b = draw(sensing_bases()) if draw(st.sampled_from(range(12))) == 0 else draw(perception_bases())
     muts = mutations(b)
     classes = sorted({m["cls"] for m in muts})
-    options = ["identity"] + classes
+    options = list(classes)
     if b["kind"] == "perception":
         options += ["respell"] * 4 + ["wrong-length", "non-numeric", "unknown-key-random"]
+    options.append("identity")
     c = draw(st.sampled_from(options))
     if c == "identity":
         mut = _mut("identity")
